@@ -99,6 +99,9 @@ class Prog(object):
                 self.nleaves += 1
                 self.leaf_info[lid] = ("i", st[1], "ok")
                 out.append(("iv", sid, st[1], lid))
+            elif op == "ddirty":
+                self.features.add("ddirty")
+                out.append(("ddirty", sid, st[1], st[2]))
             elif op in ("raise", "probe", "res"):
                 self.features.add(op)
                 out.append((op, sid))
@@ -144,6 +147,10 @@ class Prog(object):
         if op == "re":
             self.features.add("re")
             return ("re", lid, lf[1])
+        if op == "dd":
+            self.features.add("dd")
+            self.kinds.update(("a", "b"))
+            return ("dd", lid, lf[1], lf[2], lf[3])
         raise ValueError(lf)
 
 
@@ -289,6 +296,8 @@ class R1(object):
                 raise _R1Result(("t", tc.tid, tuple(rec)))
             elif op == "mk":
                 made.append(self.leaf_lazy(tc, st[2]))
+            elif op == "ddirty":
+                self.unsupported = "dd"
             elif op == "iv":
                 r = self.item(st[2], st[3], "ok")
                 self.now = r[2]
@@ -357,6 +366,9 @@ class R1(object):
             if not made:
                 return ("v", None, 0)
             return made[lf[2] % len(made)]()
+        if op == "dd":
+            self.unsupported = "dd"
+            return ("v", ("dd?",), 0)
         raise ValueError(op)
 
     def struct(self, tc, s, made, leaves):
